@@ -1,8 +1,13 @@
-"""C01 — Ordered trees hold exactly the inserted-minus-erased multiset, in order"""
-from areas import tree
+"""C01 — Ordered trees hold exactly the inserted-minus-erased multiset, in order
+
+Two layers: the functional tree model (areas/tree.py: multiset / order /
+traversal theorems) and the link-level model (areas/treel.py: the pointer code
+with l/r/p links refines the functional model; parent links proved)."""
+from areas import tree, treel
 
 
 def run(chk):
+    treel.link_level_run(chk)
     return tree.run_check(chk, "C01")
 
 
